@@ -111,6 +111,61 @@ def rand_t(rng, shape, lim=3, real=False, even=False):
     return np.array([mul * rand_gint(rng, lim, real) for _ in range(size)], dtype=np.complex128).reshape(shape)
 
 
+def vary_dtype(rng, real_only: bool) -> str:
+    """dtype of one case: all tensors of a case share it (the documented dtype is complex128; real / integer arrays
+    holding the same values are what PySCF and hand-written inputs deliver)"""
+    if not real_only:
+        return "c"
+    return rng.choice(["c", "f", "f", "i"])
+
+
+def vary_layout(rng, a, dt: str = "c"):
+    """the same values in another dtype / memory layout (C order, Fortran order, strided view of a larger buffer)"""
+    import numpy as np
+
+    if dt == "f":
+        a = np.ascontiguousarray(a.real, dtype=np.float64)
+    elif dt == "i":
+        a = np.ascontiguousarray(a.real).astype(np.int64)
+    r = rng.random()
+    if r < 0.25:
+        a = np.asfortranarray(a)
+    elif r < 0.45 and a.ndim:
+        big = np.zeros(tuple(2 * k for k in a.shape), dtype=a.dtype)
+        view = big[(slice(1, None, 2),) * a.ndim]
+        view[...] = a
+        a = view
+    return a
+
+
+def idx_form(rng, lst):
+    """an index sequence in one of the forms callers pass: list, tuple, numpy integer array, range"""
+    import numpy as np
+
+    lst = [int(x) for x in lst]
+    r = rng.random()
+    if r < 0.45:
+        return list(lst)
+    if r < 0.6:
+        return tuple(lst)
+    if r < 0.75:
+        return np.array(lst, dtype=np.int64)
+    if r < 0.85:
+        return np.array(lst, dtype=np.int32)
+    if r < 0.92:
+        return [np.int64(x) for x in lst]
+    if lst and lst == list(range(lst[0], lst[0] + len(lst))):
+        return range(lst[0], lst[0] + len(lst))
+    return list(lst)
+
+
+def same_values(a, b) -> bool:
+    import numpy as np
+
+    a, b = np.asarray(a), np.asarray(b)
+    return a.shape == b.shape and bool(np.array_equal(a, b))
+
+
 def enc_set(s, dim=None) -> str:
     h = s.mo_1e_int.array
     g = s.mo_2e_int.array
@@ -175,6 +230,8 @@ def k_index(ctx: Ctx):
     from quri_parts.chem.mol import (ActiveSpace, ActiveSpaceMolecularOrbitals, cas, convert_to_spin_orbital_indices,
                                      get_core_and_active_orbital_indices)
 
+    import numpy as np
+
     rng = ctx.rng
     reqs, reals, what = [], [], []
 
@@ -184,10 +241,11 @@ def k_index(ctx: Ctx):
             return f"ok {enc_ints(c)}|{enc_ints(ac)}"
 
         r = real_call(f)
+        a, o, e = int(a), int(o), int(e)
         reqs.append(f"cai {a} {o} {e} | {enc_act(act)}")
         reals.append(r)
-        what.append(("cai", a, o, e, None if act is None else tuple(act)))
-        check_core_spec(ctx, a, o, e, None if act is None else list(act), r)
+        what.append(("cai", a, o, e, None if act is None else tuple(int(x) for x in act)))
+        check_core_spec(ctx, a, o, e, None if act is None else [int(x) for x in act], r)
         ctx.count("cai_outcome", r.split(" ")[0] + ("" if r.startswith("ok") else ":" + r[4:]))
         ctx.count("cai_branch", "default" if not act else "explicit")
 
@@ -225,8 +283,15 @@ def k_index(ctx: Ctx):
                 act = sorted(set(act))
                 while len(act) < ln:
                     act.append((act[-1] if act else 0) + rng.randint(1, 2))
-            if rng.random() < 0.2:
+            r = rng.random()
+            if r < 0.2:
                 act = tuple(act)
+            elif r < 0.3:
+                act = [np.int64(x) for x in act]
+            elif r < 0.4 and act and act == list(range(act[0], act[0] + len(act))):
+                act = range(act[0], act[0] + len(act))
+        if rng.random() < 0.15:  # numpy integer scalars (what array-derived electron / orbital counts are)
+            a, o, e = np.int64(a), np.int32(o), np.int64(e)
         add_cai(a, o, e, act)
     # convert_to_spin_orbital_indices
     for _ in range(ctx.n(60, 600)):
@@ -322,24 +387,46 @@ def k_tensor(ctx: Ctx):
     N = ctx.n(36, 200) * BOOST
     for it in range(N):
         n = rng.choice(sizes2)
-        real_only = rng.random() < 0.2
-        C = rand_t(rng, (n, n), 2, real_only)
-        h = rand_t(rng, (n, n), 3, real_only)
-        g = rand_t(rng, (n, n, n, n), 3, real_only)
-        # AO → MO
-        add(f"ao2mo1 {n} | {enc_arr(C)} | {enc_arr(h)}",
-            real_call(lambda: "ok " + enc_arr(M.AO1eIntArray(h).to_spatial_mo1int(C).array)), ("ao2mo1", n, it))
-        add(f"ao2mo2 {n} | {enc_arr(C)} | {enc_arr(g)}",
-            real_call(lambda: "ok " + enc_arr(M.AO2eIntArray(g).to_spatial_mo2int(C).array)), ("ao2mo2", n, it))
+        real_only = rng.random() < 0.3
+        dt = vary_dtype(rng, real_only)
+        C0 = rand_t(rng, (n, n), 2, real_only)
+        h0 = rand_t(rng, (n, n), 3, real_only)
+        g0 = rand_t(rng, (n, n, n, n), 3, real_only)
+        # the arrays handed to the real code: same values, varied dtype / memory layout; the requests are built from the pristine
+        # copies C0 / h0 / g0, so a function that writes into its arguments shows up on the later calls of the same case
+        C, h, g = vary_layout(rng, C0, dt), vary_layout(rng, h0, dt), vary_layout(rng, g0, dt)
+        ctx.count("tensor_dtype", dt)
+        kw = rng.random() < 0.4
+        ao1, ao2 = M.AO1eIntArray(h), M.AO2eIntArray(g)
+        # stored AO arrays are what `.array` returns
+        try:
+            okarr = same_values(ao1.array, h0) and same_values(ao2.array, g0)
+            detail = None
+        except Exception as e:  # noqa: BLE001
+            okarr, detail = False, exc_name(e)
+        ctx.evaluations += 1
+        if not okarr:
+            ctx.witness("ao-array", "AO1eIntArray.array / AO2eIntArray.array is not the integral array the object was built from",
+                        {"n": n, "h_ao": enc_arr(h0), "g_ao": enc_arr(g0)}, detail)
+        # AO → MO (the same AO objects are used twice: the second call must see the same integrals)
+        for rep in range(2 if it % 3 == 0 else 1):
+            add(f"ao2mo1 {n} | {enc_arr(C0)} | {enc_arr(h0)}",
+                real_call(lambda: "ok " + enc_arr((ao1.to_spatial_mo1int(mo_coeff=C) if kw else ao1.to_spatial_mo1int(C)).array)),
+                ("ao2mo1", n, it, rep))
+            add(f"ao2mo2 {n} | {enc_arr(C0)} | {enc_arr(g0)}",
+                real_call(lambda: "ok " + enc_arr((ao2.to_spatial_mo2int(mo_coeff=C) if kw else ao2.to_spatial_mo2int(C)).array)),
+                ("ao2mo2", n, it, rep))
         # spin expansion: matching and non-matching n_spin_orb
         for nso in {2 * n, rng.randint(0, 2 * n + 3)}:
             if nso > 6 and ctx.quick():
                 continue
-            add(f"spin1 {nso} {n} | {enc_arr(h)}",
-                real_call(lambda: "ok " + enc_arr(M.spatial_mo_1e_int_to_spin_mo_1e_int(nso, h))), ("spin1", nso, n, it))
+            add(f"spin1 {nso} {n} | {enc_arr(h0)}",
+                real_call(lambda: "ok " + enc_arr(M.spatial_mo_1e_int_to_spin_mo_1e_int(n_spin_orb=nso, spatial_1e_integrals=h) if kw
+                                                  else M.spatial_mo_1e_int_to_spin_mo_1e_int(nso, h))), ("spin1", nso, n, it))
             if nso <= 6 or rng.random() < 0.3:
-                add(f"spin2 {nso} {n} | {enc_arr(g)}",
-                    real_call(lambda: "ok " + enc_arr(M.spatial_mo_2e_int_to_spin_mo_2e_int(nso, g))), ("spin2", nso, n, it))
+                add(f"spin2 {nso} {n} | {enc_arr(g0)}",
+                    real_call(lambda: "ok " + enc_arr(M.spatial_mo_2e_int_to_spin_mo_2e_int(n_spin_orb=nso, spatial_2e_integrals=g) if kw
+                                                      else M.spatial_mo_2e_int_to_spin_mo_2e_int(nso, g))), ("spin2", nso, n, it))
         # effective core energy / 1e / 2e with arbitrary (even overlapping, repeated, unsorted) in-range index lists
         for _ in range(3):
             core = [rng.randrange(n) for _ in range(rng.randint(0, n))]
@@ -349,14 +436,26 @@ def k_tensor(ctx: Ctx):
                 rng.shuffle(perm)
                 k = rng.randint(0, n)
                 core, act = sorted(perm[:k]), sorted(perm[k:k + rng.randint(0, n - k)])
+                if rng.random() < 0.3:
+                    core.reverse()
+                    act.reverse()
             ec = rand_gint(rng, 5)
-            add(f"effE {n} | {enc_g(ec)} | {enc_arr(h)} | {enc_arr(g)} | {enc_ints(core)}",
-                real_call(lambda: "ok " + enc_g(M.get_effective_active_space_core_energy(ec, h, g, core))), ("effE", n, it, tuple(core)))
-            add(f"eff1 {n} | {enc_arr(h)} | {enc_arr(g)} | {enc_ints(core)} | {enc_ints(act)}",
-                real_call(lambda: "ok " + enc_arr(M.get_effective_active_space_1e_integrals(h, g, core, act))),
+            core_f, act_f = idx_form(rng, core), idx_form(rng, act)
+            ctx.count("index_form", type(core_f).__name__)
+            add(f"effE {n} | {enc_g(ec)} | {enc_arr(h0)} | {enc_arr(g0)} | {enc_ints(core)}",
+                real_call(lambda: "ok " + enc_g(
+                    M.get_effective_active_space_core_energy(core_energy=ec, mo_1e_int=h, mo_2e_int=g, core_spatial_orb_idx=core_f) if kw
+                    else M.get_effective_active_space_core_energy(ec, h, g, core_f))), ("effE", n, it, tuple(core)))
+            add(f"eff1 {n} | {enc_arr(h0)} | {enc_arr(g0)} | {enc_ints(core)} | {enc_ints(act)}",
+                real_call(lambda: "ok " + enc_arr(
+                    M.get_effective_active_space_1e_integrals(mo_1e_int=h, mo_2e_int=g, core_spatial_orb_idx=core_f,
+                                                              active_spatial_orb_idx=act_f) if kw
+                    else M.get_effective_active_space_1e_integrals(h, g, core_f, act_f))),
                 ("eff1", n, it, tuple(core), tuple(act)))
-            add(f"eff2 {n} | {enc_arr(g)} | {enc_ints(act)}",
-                real_call(lambda: "ok " + enc_arr(M.get_effective_active_space_2e_integrals(g, act))), ("eff2", n, it, tuple(act)))
+            add(f"eff2 {n} | {enc_arr(g0)} | {enc_ints(act)}",
+                real_call(lambda: "ok " + enc_arr(
+                    M.get_effective_active_space_2e_integrals(mo_2e_int=g, active_spatial_orb_idx=act_f) if kw
+                    else M.get_effective_active_space_2e_integrals(g, act_f))), ("eff2", n, it, tuple(act)))
             # the composed function with raw (possibly negative / out-of-range) index lists
             if rng.random() < 0.5:
                 core_i = [c - n if rng.random() < 0.2 else c for c in core]
@@ -364,18 +463,28 @@ def k_tensor(ctx: Ctx):
                 if rng.random() < 0.25:
                     (core_i if rng.random() < 0.5 else act_i).append(rng.choice([n, n + 1, -n - 1]))
                 sset = M.SpatialMOeIntSet(ec, M.SpatialMO1eIntArray(h), M.SpatialMO2eIntArray(g))
-                add(f"asidx {n} | {enc_g(ec)} | {enc_arr(h)} | {enc_arr(g)} | {enc_ints(core_i)} | {enc_ints(act_i)}",
-                    real_call(lambda: enc_set(M.get_active_space_spatial_integrals_from_mo_eint(StubIdx(core_i, act_i), sset))),
+                stub = StubIdx(idx_form(rng, core_i), idx_form(rng, act_i))
+                add(f"asidx {n} | {enc_g(ec)} | {enc_arr(h0)} | {enc_arr(g0)} | {enc_ints(core_i)} | {enc_ints(act_i)}",
+                    real_call(lambda: enc_set(M.get_active_space_spatial_integrals_from_mo_eint(stub, sset))),
                     ("asidx", n, it, tuple(core_i), tuple(act_i)))
+        # after all calls of the case the caller's arrays still hold the integrals that were passed in
+        ctx.evaluations += 1
+        if not (same_values(C, C0) and same_values(h, h0) and same_values(g, g0)):
+            ctx.disagree("tensor:arguments-overwritten", {"n": n, "C": enc_arr(C0), "h": enc_arr(h0), "g": enc_arr(g0)},
+                         f"C {enc_arr(C)} | h {enc_arr(h)} | g {enc_arr(g)}", "arguments unchanged (the model functions are pure)")
     return reqs, reals, what
 
 
 # ---------------------------------------------------------------------------
 # K3: pipelines through the public classes
 # ---------------------------------------------------------------------------
-def random_active_space(rng, n):
-    """(n_electron, spin, cas args) accepted by ActiveSpaceMolecularOrbitals on n spatial orbitals"""
+def random_active_space(rng, n, zero_orb: float = 0.0):
+    """(n_electron, spin, cas args) accepted by ActiveSpaceMolecularOrbitals on n spatial orbitals; with probability `zero_orb`
+    an active space without active orbitals (everything frozen)"""
     for _ in range(1000):
+        if rng.random() < zero_orb:
+            k = rng.randint(0, n)
+            return 2 * k, 0, (0, 0, rng.choice([None, None, [], ()]))
         k = rng.randint(0, n - 1)
         ao = rng.randint(1, n - k)
         ae = rng.randint(0, 2 * ao)
@@ -387,8 +496,13 @@ def random_active_space(rng, n):
         act = None
         if rng.random() < 0.55:
             act = sorted(rng.sample(range(n), ao))
-            if rng.random() < 0.25:
+            r = rng.random()
+            if r < 0.25:
                 rng.shuffle(act)
+            elif r < 0.4:
+                act.reverse()
+            if rng.random() < 0.3:
+                act = tuple(act)
         return 2 * k + ae, sp, (ae, ao, act)
     raise InfraError("no active space generated")
 
@@ -405,41 +519,67 @@ def k_pipeline(ctx: Ctx):
         kind = kinds[it % len(kinds)]
         if n == 4 and kind in ("ao_full_spin",) and rng.random() < 0.7:
             n = 3
-        real_only = rng.random() < 0.2
-        C = rand_t(rng, (n, n), 2, real_only)
-        h = rand_t(rng, (n, n), 3, real_only)
-        g = rand_t(rng, (n, n, n, n), 2, real_only)
+        real_only = rng.random() < 0.3
+        dt = vary_dtype(rng, real_only)
+        C0 = rand_t(rng, (n, n), 2, real_only)
+        h0 = rand_t(rng, (n, n), 3, real_only)
+        g0 = rand_t(rng, (n, n, n, n), 2, real_only)
+        C, h, g = vary_layout(rng, C0, dt), vary_layout(rng, h0, dt), vary_layout(rng, g0, dt)
         const = rand_gint(rng, 5)
-        ne, sp, (ae, ao, act) = random_active_space(rng, n)
+        ne, sp, (ae, ao, act) = random_active_space(rng, n, zero_orb=0.1)
         mo = StubMO(ne, sp, n, C)
         fnform = rng.random() < 0.5
+        kw = rng.random() < 0.4
+        objs = {}
 
         def f():
-            asmo = M.ActiveSpaceMolecularOrbitals(mo, M.cas(ae, ao, act))
-            sset = M.SpatialMOeIntSet(const, M.SpatialMO1eIntArray(h), M.SpatialMO2eIntArray(g))
-            aoset = M.AOeIntArraySet(const, M.AO1eIntArray(h), M.AO2eIntArray(g))
+            # the integral / orbital objects are built once per case and reused by the repeated call below
+            if not objs:
+                objs["asmo"] = M.ActiveSpaceMolecularOrbitals(mo, M.cas(ae, ao, act))
+                objs["sset"] = M.SpatialMOeIntSet(const, M.SpatialMO1eIntArray(h), M.SpatialMO2eIntArray(g))
+                objs["aoset"] = M.AOeIntArraySet(const, M.AO1eIntArray(h), M.AO2eIntArray(g))
+            asmo, sset, aoset = objs["asmo"], objs["sset"], objs["aoset"]
             if kind == "mo_spatial":
-                return enc_set(M.get_active_space_spatial_integrals_from_mo_eint(asmo, sset))
+                return enc_set(M.get_active_space_spatial_integrals_from_mo_eint(active_space_mo=asmo, electron_mo_ints=sset) if kw
+                               else M.get_active_space_spatial_integrals_from_mo_eint(asmo, sset))
             if kind == "mo_spin":
-                return enc_set(M.get_active_space_spin_integrals_from_mo_eint(asmo, sset))
+                return enc_set(M.get_active_space_spin_integrals_from_mo_eint(active_space_mo=asmo, electron_mo_ints=sset) if kw
+                               else M.get_active_space_spin_integrals_from_mo_eint(asmo, sset))
             if kind == "to_spin":
                 if fnform:
-                    return enc_set(M.spatial_mo_eint_set_to_spin_mo_eint_set(sset))
-                h1, g1 = M.to_spin_orbital_integrals(2 * n, h, g)
+                    return enc_set(M.spatial_mo_eint_set_to_spin_mo_eint_set(spatial_mo_eint_set=sset) if kw
+                                   else M.spatial_mo_eint_set_to_spin_mo_eint_set(sset))
+                h1, g1 = (M.to_spin_orbital_integrals(n_spin_orb=2 * n, spatial_1e_integrals=h, spatial_2e_integrals=g) if kw
+                          else M.to_spin_orbital_integrals(2 * n, h, g))
                 return enc_set(M.SpinMOeIntSet(const, M.SpinMO1eIntArray(h1), M.SpinMO2eIntArray(g1)))
             if kind == "ao_full_spatial":
-                return enc_set(aoset.to_full_space_spatial_mo_int(mo))
+                return enc_set(aoset.to_full_space_spatial_mo_int(mo=mo) if kw else aoset.to_full_space_spatial_mo_int(mo))
             if kind == "ao_full_spin":
-                return enc_set(aoset.to_full_space_mo_int(mo))
+                if fnform:
+                    return enc_set(M.SpinMOeIntSet(const, aoset.ao_1e_int.to_mo1int(C), aoset.ao_2e_int.to_mo2int(mo_coeff=C)))
+                return enc_set(aoset.to_full_space_mo_int(mo=mo) if kw else aoset.to_full_space_mo_int(mo))
             if kind == "ao_as_spatial":
-                return enc_set(M.get_active_space_spatial_integrals_from_ao_eint(asmo, aoset) if fnform
-                               else aoset.to_active_space_spatial_mo_int(asmo))
-            return enc_set(M.get_active_space_spin_integrals_from_ao_eint(asmo, aoset) if fnform else aoset.to_active_space_mo_int(asmo))
+                if fnform:
+                    return enc_set(M.get_active_space_spatial_integrals_from_ao_eint(active_space_mo=asmo, electron_ao_ints=aoset) if kw
+                                   else M.get_active_space_spatial_integrals_from_ao_eint(asmo, aoset))
+                return enc_set(aoset.to_active_space_spatial_mo_int(active_space_mo=asmo) if kw else aoset.to_active_space_spatial_mo_int(asmo))
+            if fnform:
+                return enc_set(M.get_active_space_spin_integrals_from_ao_eint(active_space_mo=asmo, electron_ao_ints=aoset) if kw
+                               else M.get_active_space_spin_integrals_from_ao_eint(asmo, aoset))
+            return enc_set(aoset.to_active_space_mo_int(active_space_mo=asmo) if kw else aoset.to_active_space_mo_int(asmo))
 
-        reqs.append(f"pipe {kind} {n} | {ne} {sp} {n} {ae} {ao} | {enc_act(act)} | {enc_arr(C)} | {enc_g(const)} | {enc_arr(h)} | {enc_arr(g)}")
-        reals.append(real_call(f))
-        what.append(("pipe", kind, n, it))
-        ctx.count("pipeline", kind)
+        req = (f"pipe {kind} {n} | {ne} {sp} {n} {ae} {ao} | {enc_act(act)} | {enc_arr(C0)} | {enc_g(const)} | {enc_arr(h0)} | "
+               f"{enc_arr(g0)}")
+        # every third case: the same call once more on the same objects (nothing may be carried over / overwritten)
+        for rep in range(2 if it % 3 == 0 else 1):
+            reqs.append(req)
+            reals.append(real_call(f))
+            what.append(("pipe", kind, n, it, rep))
+            ctx.count("pipeline", kind)
+        ctx.count("pipeline_active_orb", str(ao))
+        if not (same_values(C, C0) and same_values(h, h0) and same_values(g, g0)):
+            ctx.disagree("pipe:arguments-overwritten", {"request": req}, f"C {enc_arr(C)} | h {enc_arr(h)} | g {enc_arr(g)}",
+                         "arguments unchanged (the model functions are pure)")
     # get_fermionic_hamiltonian (even entries: the division by two is exact)
     import quri_parts.openfermion.mol as OM
 
@@ -537,59 +677,139 @@ def qubit_terms(op):
     return [(complex(c), tuple((int(i), names[int(p)]) for i, p in label)) for label, c in op.items()]
 
 
-def active_space_case(ctx: Ctx, n, const, h, chem, ne, sp, casargs, tag):
-    """P1: reduced Hamiltonian vs the block of the full Hamiltonian on (specification core) ∪ active determinants."""
+def oracle_fock(const, one, two, m):
+    """slater.fock_matrix, also for an empty register (m = 0: the 1×1 matrix (const))"""
+    import numpy as np
+
+    if m == 0:
+        return np.array([[complex(const)]])
+    return slater.fock_matrix(const, one, two, m)
+
+
+REDUCE_FORMS = {
+    "mo": ["spin_fn", "spatial_fn+to_spin"],
+    "ao": ["set.to_active_space_mo_int", "spin_fn_ao", "set.to_active_space_spatial_mo_int+to_spin", "spatial_fn_ao+to_spin"],
+}
+
+
+def active_space_case(ctx: Ctx, n, const, h, chem, spaces, tag, C=None, real_dtype=False):
+    """P1: reduced Hamiltonian vs the block of the full Hamiltonian on (specification core) ∪ active determinants.
+
+    `h`, `chem` are the integrals the real code is given: MO integrals (C is None, the `*_from_mo_eint` entry points) or AO
+    integrals together with the orbital coefficients C (the `AOeIntArraySet` / `*_from_ao_eint` entry points; the oracle then
+    transforms to the MO basis by its own einsum).  `spaces` is a list of (n_electron, spin, (n_active_ele, n_active_orb,
+    active list)); they are reduced one after the other from the SAME integral objects and the first one once more at the end:
+    whatever the order of calls, each result must describe the Hamiltonian of the integrals the caller passed in."""
     import numpy as np
 
     import quri_parts.chem.mol as M
 
-    ae, ao, act = casargs
+    rng = ctx.rng
     g = slater.phys_from_chem(chem)
-    inp = {"n_spatial": n, "n_electron": ne, "spin": sp, "cas": [ae, ao, act], "const": const, "h": h.tolist(), "eri_chem": chem.tolist(),
-           "source": tag}
-    try:
-        asmo = M.ActiveSpaceMolecularOrbitals(StubMO(ne, sp, n, np.eye(n)), M.cas(ae, ao, act))
-        sset = M.SpatialMOeIntSet(const, M.SpatialMO1eIntArray(h.astype(complex)), M.SpatialMO2eIntArray(g.astype(complex)))
-        red = M.get_active_space_spin_integrals_from_mo_eint(asmo, sset)
-        full = M.spatial_mo_eint_set_to_spin_mo_eint_set(sset)
-        c_r, one_r, two_r = real_fermionic_tensors(red, 2 * ao)
-        c_f, one_f, two_f = real_fermionic_tensors(full, 2 * n)
-    except ShapeError as e:
-        ctx.witness("integral-shape", "spin-orbital integral arrays do not have 2·(number of spatial orbitals) spin orbitals", inp, str(e))
-        return
-    except Exception as e:  # noqa: BLE001
-        ctx.witness("active-space-raises", f"active-space reduction raises {exc_name(e)} on a valid active space", inp, str(e)[:200])
-        return
-    H_full = slater.fock_matrix(const, slater.spin_one(h), slater.spin_two(g) / 2, 2 * n)  # oracle only
-    H_full_real = slater.fock_matrix(c_f, one_f, two_f, 2 * n)
-    scale = max(1.0, float(np.max(np.abs(H_full))))
-    ctx.evaluations += 1
-    if maxdiff(H_full, H_full_real) > TOL * scale:
-        ctx.witness("full-space-hamiltonian", "full-space spin-orbital Hamiltonian (spatial→spin expansion + 1/2 assembly) differs from the "
-                    "Fock-space oracle built from the spatial integrals", inp, {"max_abs_diff": maxdiff(H_full, H_full_real)})
-        return
-    H_red = slater.fock_matrix(c_r, one_r, two_r, 2 * ao)
-    core, active = slater.spec_core_and_active(ae, ao, ne, act)
-    emb = [slater.embed_det(core, active, S) for S in range(1 << (2 * ao))]
-    idx = np.array([o for o, _ in emb])
-    sg = np.array([s for _, s in emb], dtype=float)
-    block = H_full[np.ix_(idx, idx)] * sg[:, None] * sg[None, :]
-    d = np.abs(block - H_red)
-    ctx.evaluations += d.size
-    if float(d.max()) > TOL * scale:
-        r, c = np.unravel_index(int(np.argmax(d)), d.shape)
-        diag = np.abs(np.diag(block) - np.diag(H_red))
-        S = int(np.argmax(diag)) if float(diag.max()) > TOL * scale else None
-        ctx.witness("active-space-energy",
-                    "reduced (active-space) Hamiltonian incl. effective core energy differs from the full Hamiltonian on determinants "
-                    "compatible with the active space" + (" (determinant ENERGY differs)" if S is not None else " (off-diagonal element)"),
-                    inp,
-                    {"specification_core": core, "active": active,
-                     "determinant_active_register_bits": S if S is not None else [int(r), int(c)],
-                     "full": str(block[S, S] if S is not None else block[r, c]),
-                     "reduced": str(H_red[S, S] if S is not None else H_red[r, c])})
+    # the oracle works on pristine copies
+    if C is None:
+        h_mo, g_mo = h.copy(), g.copy()
     else:
+        h_mo, g_mo = slater.mo_one(h, C), slater.phys_from_chem(slater.mo_two_chem(chem, C))
+    base = {"n_spatial": n, "const": const, "integrals": "MO" if C is None else "AO", "h": h.tolist(), "eri_chem": chem.tolist(),
+            "source": tag}
+    if C is not None:
+        base["C_re"], base["C_im"] = np.real(C).tolist(), np.imag(C).tolist()
+    H_full = oracle_fock(const, slater.spin_one(h_mo), slater.spin_two(g_mo) / 2, 2 * n)  # oracle only
+    scale = max(1.0, float(np.max(np.abs(H_full))))
+    dt = float if (real_dtype and C is None) else complex
+    h_in, g_in = vary_layout(rng, h.astype(dt)), vary_layout(rng, g.astype(dt))
+    C_in = None if C is None else vary_layout(rng, C.astype(float if (real_dtype and not np.iscomplexobj(C)) else complex))
+    sset = aoset = None
+    if C is None:
+        sset = M.SpatialMOeIntSet(const, M.SpatialMO1eIntArray(h_in), M.SpatialMO2eIntArray(g_in))
+    else:
+        aoset = M.AOeIntArraySet(const, M.AO1eIntArray(h_in), M.AO2eIntArray(g_in))
+
+    def full_space_ok(when):
+        """the full-space Hamiltonian the real code builds from the same objects"""
+        inp = {**base, "call": f"full space {when}"}
+        try:
+            if C is None:
+                full = M.spatial_mo_eint_set_to_spin_mo_eint_set(sset)
+            else:
+                full = aoset.to_full_space_mo_int(StubMO(spaces[0][0], spaces[0][1], n, C_in))
+            c_f, one_f, two_f = real_fermionic_tensors(full, 2 * n)
+        except ShapeError as e:
+            ctx.witness("integral-shape", "spin-orbital integral arrays do not have 2·(number of spatial orbitals) spin orbitals", inp, str(e))
+            return False
+        except Exception as e:  # noqa: BLE001
+            ctx.witness("full-space-raises", f"full-space spin-orbital integrals raise {exc_name(e)}", inp, str(e)[:200])
+            return False
+        H_full_real = oracle_fock(c_f, one_f, two_f, 2 * n)
+        ctx.evaluations += 1
+        if maxdiff(H_full, H_full_real) > TOL * scale:
+            ctx.witness("full-space-hamiltonian", "full-space spin-orbital Hamiltonian (AO→MO, spatial→spin expansion, 1/2 assembly) differs "
+                        "from the Fock-space oracle built from the integrals that were passed in", inp,
+                        {"max_abs_diff": maxdiff(H_full, H_full_real)})
+            return False
+        return True
+
+    if not full_space_ok("before any reduction"):
+        return
+    sequence = list(spaces) + ([spaces[0]] if len(spaces) > 1 or rng.random() < 0.5 else [])
+    asmos = {}
+    for pos, (ne, sp, (ae, ao, act)) in enumerate(sequence):
+        form = rng.choice(REDUCE_FORMS["mo" if C is None else "ao"])
+        inp = {**base, "n_electron": ne, "spin": sp, "cas": [ae, ao, None if act is None else list(act)],
+               "active_list_type": type(act).__name__, "entry_point": form, "call_number_on_these_objects": pos + 1,
+               "earlier_active_spaces": [[a, o, None if l is None else list(l)] for _, _, (a, o, l) in sequence[:pos]]}
+        try:
+            key = (ne, sp, ae, ao, None if act is None else tuple(act))
+            if key not in asmos or rng.random() < 0.5:  # sometimes the same ActiveSpaceMolecularOrbitals object again
+                asmos[key] = M.ActiveSpaceMolecularOrbitals(StubMO(ne, sp, n, C_in if C is not None else np.eye(n)), M.cas(ae, ao, act))
+            asmo = asmos[key]
+            if form == "spin_fn":
+                red = M.get_active_space_spin_integrals_from_mo_eint(asmo, sset)
+            elif form == "spatial_fn+to_spin":
+                red = M.spatial_mo_eint_set_to_spin_mo_eint_set(M.get_active_space_spatial_integrals_from_mo_eint(asmo, sset))
+            elif form == "set.to_active_space_mo_int":
+                red = aoset.to_active_space_mo_int(asmo)
+            elif form == "spin_fn_ao":
+                red = M.get_active_space_spin_integrals_from_ao_eint(asmo, aoset)
+            elif form == "set.to_active_space_spatial_mo_int+to_spin":
+                red = M.spatial_mo_eint_set_to_spin_mo_eint_set(aoset.to_active_space_spatial_mo_int(asmo))
+            else:
+                red = M.spatial_mo_eint_set_to_spin_mo_eint_set(M.get_active_space_spatial_integrals_from_ao_eint(asmo, aoset))
+            c_r, one_r, two_r = real_fermionic_tensors(red, 2 * ao)
+        except ShapeError as e:
+            ctx.witness("integral-shape", "spin-orbital integral arrays do not have 2·(number of active orbitals) spin orbitals", inp, str(e))
+            return
+        except Exception as e:  # noqa: BLE001
+            ctx.witness("active-space-raises", f"active-space reduction raises {exc_name(e)} on a valid active space", inp, str(e)[:200])
+            return
+        H_red = oracle_fock(c_r, one_r, two_r, 2 * ao)
+        core, active = slater.spec_core_and_active(ae, ao, ne, None if act is None else list(act))
+        emb = [slater.embed_det(core, active, S) for S in range(1 << (2 * ao))]
+        idx = np.array([o for o, _ in emb])
+        sg = np.array([s for _, s in emb], dtype=float)
+        block = H_full[np.ix_(idx, idx)] * sg[:, None] * sg[None, :]
+        d = np.abs(block - H_red)
+        ctx.evaluations += d.size
+        ctx.count("active_space_entry", form)
+        ctx.count("active_space_orb", str(ao))
+        if float(d.max()) > TOL * scale:
+            r, c = np.unravel_index(int(np.argmax(d)), d.shape)
+            diag = np.abs(np.diag(block) - np.diag(H_red))
+            S = int(np.argmax(diag)) if float(diag.max()) > TOL * scale else None
+            ctx.witness("active-space-energy",
+                        "reduced (active-space) Hamiltonian incl. effective core energy differs from the full Hamiltonian on determinants "
+                        "compatible with the active space" + (" (determinant ENERGY differs)" if S is not None else " (off-diagonal element)")
+                        + (" — on a repeated / later call with the same integral objects" if pos else ""),
+                        inp,
+                        {"specification_core": core, "active": active,
+                         "determinant_active_register_bits": S if S is not None else [int(r), int(c)],
+                         "full": str(block[S, S] if S is not None else block[r, c]),
+                         "reduced": str(H_red[S, S] if S is not None else H_red[r, c])})
+            return
         ctx.count("physics", "active-space-block-ok")
+    # and the full space once more: the reductions must not have changed the caller's integrals
+    full_space_ok("after the reductions")
 
 
 def p_active_space(ctx: Ctx, scale: int):
@@ -599,16 +819,21 @@ def p_active_space(ctx: Ctx, scale: int):
     # regression input of the repaired defect (zero core electrons, orbital 0 not active)
     h = np.array([[-1.0, 0.2, 0.1], [0.2, -0.5, 0.3], [0.1, 0.3, 0.4]])
     chem = slater.random_eri_chem(__import__("random").Random(14), 3)
-    active_space_case(ctx, 3, 0.5, h, chem, 2, 0, (2, 2, [1, 2]), "witness:zero-core")
-    sizes = ([2, 3, 3, 3, 4] if ctx.quick() else [2, 3, 3, 4, 4]) * (ctx.n(8, 40) * scale)
+    active_space_case(ctx, 3, 0.5, h, chem, [(2, 0, (2, 2, [1, 2]))], "witness:zero-core")
+    sizes = ([2, 3, 3, 1, 3, 4] if ctx.quick() else [2, 3, 3, 4, 4, 1]) * (ctx.n(6, 24) * scale)
     for n in sizes:
         h = slater.random_symmetric(rng, n)
         chem = slater.random_eri_chem(rng, n)
-        ne, sp, casargs = random_active_space(rng, n)
-        active_space_case(ctx, n, rng.uniform(-1, 1), h, chem, ne, sp, casargs, "random")
+        spaces = [random_active_space(rng, n, zero_orb=0.08) for _ in range(rng.choice([1, 2, 2, 3]))]
+        r = rng.random()
+        C = None
+        if r < 0.3:
+            C = slater.random_unitary(rng, n, real=True)
+        elif r < 0.55:
+            C = slater.random_unitary(rng, n)
+        active_space_case(ctx, n, rng.uniform(-1, 1), h, chem, spaces, "random", C=C, real_dtype=rng.random() < 0.5)
         ctx.count("active_space_n", str(n))
-
-
+        ctx.count("active_space_integrals", "MO" if C is None else ("AO,real C" if not np.iscomplexobj(C) else "AO,complex C"))
 def p_rotation_and_ao(ctx: Ctx, scale: int):
     """P2: AO→MO against einsum in chemist notation; full-space spectra invariant under orbital rotations."""
     import numpy as np
@@ -678,8 +903,13 @@ def p_qubit(ctx: Ctx, scale: int):
     import quri_parts.openfermion.transforms as T
 
     rng = ctx.rng
-    for it in range(ctx.n(18, 120) * scale):
-        n = rng.choice([2, 2, 3])
+    for it in range(ctx.n(24, 160) * scale):
+        kind = ["jw", "bk", "scbk"][it % 3]
+        n = rng.choice([1, 2, 2, 3])
+        if kind == "scbk" and n == 1:
+            n = 2  # SCBK on 2 spin orbitals is outside this property (fermion-qubit mappings: C13)
+        if kind == "jw" and not ctx.quick() and it % 12 == 0:
+            n = 4
         h = slater.random_symmetric(rng, n)
         chem = slater.random_eri_chem(rng, n)
         g = slater.phys_from_chem(chem)
@@ -691,19 +921,37 @@ def p_qubit(ctx: Ctx, scale: int):
             ctx.witness("integral-shape", "spin-orbital integral arrays do not have 2·(number of spatial orbitals) spin orbitals",
                         {"n_spatial": n}, str(spin_set.mo_1e_int.array.shape))
             continue
-        kind = ["jw", "bk", "scbk"][it % 3]
         na = rng.randint(0, n)
         nb = rng.randint(0, n)
         if kind == "scbk" and (na + nb == 0 or na + nb == 2 * n):
             na, nb = 1, min(1, n)
         nele, sz = na + nb, (na - nb) / 2
-        inp = {"n_spatial": n, "mapping": kind, "n_electrons": nele, "sz": sz, "const": const, "h": h.tolist(), "eri_chem": chem.tolist()}
+        # the ActiveSpace argument only carries (n_active_ele, n_active_orb); an explicit index list must not matter
+        act = rng.choice([None, None, list(range(n)), tuple(range(1, n + 1)), sorted(rng.sample(range(2 * n), n), reverse=True)])
+        form = rng.choice(["get_qubit_mapped_hamiltonian", "get_qubit_mapped_hamiltonian(keywords)",
+                           "operator_from_of_fermionic_op(InteractionOperator)", "operator_from_of_fermionic_op(FermionOperator)"])
+        if kind == "jw" and rng.random() < 0.4:
+            form = "get_qubit_mapped_hamiltonian(defaults)"
+        inp = {"n_spatial": n, "mapping": kind, "n_electrons": nele, "sz": sz, "const": const, "h": h.tolist(), "eri_chem": chem.tolist(),
+               "active_orbs_indices": None if act is None else list(act), "entry_point": form}
+        ctx.count("qubit_entry", form)
         try:
             fac = {"jw": T.jordan_wigner, "bk": T.bravyi_kitaev, "scbk": T.symmetry_conserving_bravyi_kitaev}[kind]
-            if kind == "jw" and rng.random() < 0.5:
-                op, mapping = OM.get_qubit_mapped_hamiltonian(M.cas(nele, n), spin_set)
+            space = M.cas(nele, n, act)
+            if form == "get_qubit_mapped_hamiltonian(defaults)":
+                op, mapping = OM.get_qubit_mapped_hamiltonian(space, spin_set)
+            elif form == "get_qubit_mapped_hamiltonian":
+                op, mapping = OM.get_qubit_mapped_hamiltonian(space, spin_set, sz, fac)
+            elif form == "get_qubit_mapped_hamiltonian(keywords)":
+                op, mapping = OM.get_qubit_mapped_hamiltonian(active_space=space, spin_mo_eint_set=spin_set, sz=sz,
+                                                              fermion_qubit_mapping=fac)
             else:
-                op, mapping = OM.get_qubit_mapped_hamiltonian(M.cas(nele, n), spin_set, sz, fac)
+                ferm = OM.get_fermionic_hamiltonian(spin_set)
+                if form.endswith("(FermionOperator)"):
+                    import openfermion
+
+                    ferm = openfermion.get_fermion_operator(ferm)
+                op, mapping = OM.operator_from_of_fermionic_op(ferm, space, sz, fac)
             nq = mapping.n_qubits
             H_q = slater.pauli_matrix(nq, qubit_terms(op))
         except Exception as e:  # noqa: BLE001
@@ -739,15 +987,29 @@ def p_qubit(ctx: Ctx, scale: int):
                 ctx.count("physics", "qubit-scbk-ok")
 
 
+# name: (geometry, spin = N_alpha − N_beta, active spaces (n_active_ele, n_active_orb, explicit list | None))
 MOLECULES = {
-    "H2": ("H 0 0 0; H 0 0 0.74", [None, (2, 2, None), (2, 2, [0, 1])]),
-    "LiH": ("Li 0 0 0; H 0 0 1.6", [(2, 2, None), (2, 3, [1, 2, 5]), (4, 3, None), (2, 2, [2, 5]), (4, 3, [1, 2, 3])]),
-    "H2O": ("O 0 0 0; H 0 0.757 0.587; H 0 -0.757 0.587", [(4, 4, None), (2, 2, None), (4, 3, [3, 4, 6]), (6, 4, [2, 3, 4, 5])]),
+    "H2": ("H 0 0 0; H 0 0 0.74", 0,
+           [(2, 2, None), (2, 2, [0, 1]), (2, 2, (1, 0)), (0, 0, None), (2, 1, None), (0, 1, [1])]),
+    "H3": ("H 0 0 0; H 0 0 0.9; H 0 0 1.9", 1,
+           [(1, 1, None), (1, 2, None), (3, 3, None), (1, 2, [2, 1]), (3, 2, [0, 1]), (3, 3, (2, 0, 1)), (1, 1, [2])]),
+    "LiH": ("Li 0 0 0; H 0 0 1.6", 0,
+            [(2, 2, None), (2, 3, [1, 2, 5]), (4, 3, None), (2, 2, [5, 2]), (4, 3, [1, 2, 3]), (0, 0, None), (2, 3, (4, 1, 3))]),
+    "H2O": ("O 0 0 0; H 0 0.757 0.587; H 0 -0.757 0.587", 0,
+            [(4, 4, None), (2, 2, None), (4, 3, [3, 4, 6]), (6, 4, [2, 3, 4, 5]), (4, 3, [6, 4, 3]), (0, 0, [])]),
 }
 
 
+def set_diff(a, b) -> float:
+    """largest difference of two integral sets (const, 1e array, 2e array)"""
+    return max(maxdiff(a.mo_1e_int.array, b.mo_1e_int.array), maxdiff(a.mo_2e_int.array, b.mo_2e_int.array),
+               abs(complex(a.const) - complex(b.const)))
+
+
 def p_pyscf(ctx: Ctx):
-    """P4: real molecules: PySCF-backed path vs in-memory path; HF energy and CASCI energy as anchors."""
+    """P4: real molecules: PySCF-backed path vs in-memory path (every public entry point, Hartree–Fock and rotated orbitals,
+    closed and open shell, several active spaces one after the other on the same integral-set objects); anchors independent of
+    quri-parts: PySCF's raw AO integrals, Slater–Condon determinant energies, the SCF energy, PySCF CASCI."""
     import numpy as np
 
     try:
@@ -757,113 +1019,240 @@ def p_pyscf(ctx: Ctx):
         ctx.count("pyscf", "unavailable")
         return
     import quri_parts.chem.mol as M
+    import quri_parts.openfermion.mol as OM
     import quri_parts.pyscf.mol as PM
 
-    names = ["H2", "LiH"] if ctx.quick() else ["H2", "LiH", "H2O"]
+    rng = ctx.rng
+    names = ["H2", "H3", "LiH"] if ctx.quick() else ["H2", "H3", "LiH", "H2O"]
     for name in names:
-        geom, spaces = MOLECULES[name]
-        mol = gto.M(atom=geom, basis="sto-3g", verbose=0)
-        mf = scf.RHF(mol)
+        geom, spin, spaces = MOLECULES[name]
+        mol = gto.M(atom=geom, basis="sto-3g", spin=spin, verbose=0)
+        mf = scf.RHF(mol) if spin == 0 else scf.ROHF(mol)
         mf.conv_tol = 1e-12
         mf.run()
-        C = mf.mo_coeff
-        mo = PM.PySCFMolecularOrbitals(mol, C)
-        n = mo.n_spatial_orb
-        py_set = PM.get_ao_eint_set(mo)
-        mem_set = PM.get_ao_eint_set(mo, store_array_on_memory=True)
-        inp0 = {"molecule": name, "basis": "sto-3g", "geometry": geom}
-        # full space: both paths, spatial and spin
-        fs_py, fs_mem = py_set.to_full_space_spatial_mo_int(mo), mem_set.to_full_space_spatial_mo_int(mo)
-        d = max(maxdiff(fs_py.mo_1e_int.array, fs_mem.mo_1e_int.array), maxdiff(fs_py.mo_2e_int.array, fs_mem.mo_2e_int.array),
-                abs(fs_py.const - fs_mem.const))
-        ctx.evaluations += 1
-        if d > TOL:
-            ctx.witness("pyscf-vs-memory", "full-space spatial MO integrals of the PySCF-backed and the in-memory path differ", inp0, {"max_diff": d})
-        if n <= 6:
-            sp_py, sp_mem = py_set.to_full_space_mo_int(mo), mem_set.to_full_space_mo_int(mo)
-            d = max(maxdiff(sp_py.mo_1e_int.array, sp_mem.mo_1e_int.array), maxdiff(sp_py.mo_2e_int.array, sp_mem.mo_2e_int.array))
-            ctx.evaluations += 1
-            if d > TOL:
-                ctx.witness("pyscf-vs-memory", "full-space spin MO integrals of the two paths differ", inp0, {"max_diff": d})
-            as0, sp_mole = PM.get_spin_mo_integrals_from_mole(mol, C)
-            d = max(maxdiff(sp_mole.mo_1e_int.array, sp_mem.mo_1e_int.array), maxdiff(sp_mole.mo_2e_int.array, sp_mem.mo_2e_int.array))
-            if d > TOL or (as0.n_active_ele, as0.n_active_orb, as0.active_orbs_indices) != (mol.nelectron, n, None):
-                ctx.witness("pyscf-vs-memory", "get_spin_mo_integrals_from_mole without an active space is not the full space", inp0,
-                            {"max_diff": d, "active_space": str(as0)})
-        # HF determinant energy from the real in-memory spatial integrals (oracle Slater–Condon) = SCF energy
-        h_mo = np.real(fs_mem.mo_1e_int.array)
-        chem_mo = slater.chem_from_phys(np.real(fs_mem.mo_2e_int.array))
-        nocc = mol.nelectron // 2
-        e_hf = slater.det_energy_spatial(fs_mem.const, h_mo, chem_mo, range(nocc), range(nocc)).real
-        ctx.evaluations += 1
-        if abs(e_hf - mf.e_tot) > 1e-7:
-            ctx.witness("hf-anchor", "Hartree–Fock determinant energy from the MO integrals differs from the SCF energy", inp0,
-                        {"from_integrals": e_hf, "scf": float(mf.e_tot)})
-        else:
-            ctx.count("physics", "hf-anchor-ok")
-        for space in spaces:
-            if space is None:
-                continue
-            ae, ao, act = space
-            inp = {**inp0, "cas": [ae, ao, act]}
+        C_hf = mf.mo_coeff
+        n = int(mol.nao)
+        n_alpha, n_beta = (mol.nelectron + spin) // 2, (mol.nelectron - spin) // 2
+        inp0 = {"molecule": name, "basis": "sto-3g", "geometry": geom, "spin": spin}
+        # ---- raw AO quantities straight from PySCF (not through quri-parts)
+        h_ao = mol.intor("int1e_kin") + mol.intor("int1e_nuc")
+        chem_ao = mol.intor("int2e")
+        Z, R = mol.atom_charges(), mol.atom_coords()
+        e_nuc = sum(Z[i] * Z[j] / np.linalg.norm(R[i] - R[j]) for i in range(len(Z)) for j in range(i))
+        # ONE pair of integral-set objects per molecule, used for every orbital set and every active space below
+        mo_hf = PM.PySCFMolecularOrbitals(mol, C_hf)
+        try:
+            py_set = PM.get_ao_eint_set(mo_hf)
+            mem_set = PM.get_ao_eint_set(mo_hf, store_array_on_memory=True) if rng.random() < 0.5 else PM.get_ao_eint_set(mo_hf, True)
+            d_ao = max(maxdiff(py_set.ao_1e_int.array, h_ao), maxdiff(mem_set.ao_1e_int.array, h_ao),
+                       maxdiff(PM.get_ao_1eint(mo_hf).array, h_ao),
+                       maxdiff(py_set.ao_2e_int.array, slater.phys_from_chem(chem_ao)),
+                       maxdiff(mem_set.ao_2e_int.array, slater.phys_from_chem(chem_ao)),
+                       maxdiff(PM.get_ao_2eint(mo_hf).array, slater.phys_from_chem(chem_ao)),
+                       abs(py_set.constant - e_nuc), abs(mem_set.constant - e_nuc), abs(PM.get_nuc_energy(mo_hf) - e_nuc))
+            bookkeeping = (mo_hf.n_electron, mo_hf.spin, mo_hf.n_spatial_orb, mo_hf.mol is mol, same_values(mo_hf.mo_coeff, C_hf))
+        except Exception as e:  # noqa: BLE001
+            ctx.witness("pyscf-raises", f"AO integral sets of the molecule raise {exc_name(e)}", inp0, str(e)[:200])
+            continue
+        ctx.evaluations += 2
+        if d_ao > TOL:
+            ctx.witness("pyscf-ao-integrals", "AO integrals / nuclear repulsion of the integral sets differ from PySCF's int1e_kin + int1e_nuc, "
+                        "int2e in the documented ordering g[p,q,r,s] = (ps|qr), Σ Z_i Z_j / r_ij", inp0, {"max_diff": d_ao})
+            continue
+        if bookkeeping != (mol.nelectron, spin, n, True, True):
+            ctx.witness("pyscf-molecular-orbitals", "PySCFMolecularOrbitals does not report the molecule's electron count / spin / orbital "
+                        "count / coefficients", inp0, str(bookkeeping))
+            continue
+        # orbital sets: Hartree–Fock, and a real rotation of them (the integral paths may not depend on C being an SCF solution)
+        coeff_sets = [("HF", C_hf)]
+        U = slater.random_unitary(rng, n, real=True)
+        coeff_sets.append(("HF·U (random real orthogonal U)", C_hf @ U))
+        first_result = None
+        for cname, C in coeff_sets:
+            rotated = cname != "HF"
+            inp1 = {**inp0, "orbitals": cname}
+            if rotated:
+                inp1["U"] = U.tolist()
+            mo = PM.PySCFMolecularOrbitals(mol, C)
+            # oracle MO integrals from the raw AO integrals
+            h_mo = slater.mo_one(h_ao, C).real
+            chem_mo = slater.mo_two_chem(chem_ao, C).real
+            g_mo = slater.phys_from_chem(chem_mo)
+            # full space: both paths, spatial and spin, against the oracle
             try:
-                asmo = M.ActiveSpaceMolecularOrbitals(mo, M.cas(ae, ao, act))
-                a_py = py_set.to_active_space_mo_int(asmo)
-                a_mem = mem_set.to_active_space_mo_int(asmo)
-                _, a_mole = PM.get_spin_mo_integrals_from_mole(mol, C, M.cas(ae, ao, act))
+                fs_py, fs_mem = py_set.to_full_space_spatial_mo_int(mo), mem_set.to_full_space_spatial_mo_int(mo)
+                d = max(set_diff(fs_py, fs_mem), maxdiff(fs_py.mo_1e_int.array, h_mo), maxdiff(fs_py.mo_2e_int.array, g_mo),
+                        abs(fs_py.const - e_nuc))
+                ctx.evaluations += 1
+                if d > TOL:
+                    ctx.witness("pyscf-vs-memory", "full-space spatial MO integrals of the PySCF-backed path, the in-memory path and the "
+                                "einsum of PySCF's raw AO integrals differ", inp1, {"max_diff": d})
+                    continue
+                if n <= 7:
+                    sp_py, sp_mem = py_set.to_full_space_mo_int(mo), mem_set.to_full_space_mo_int(mo)
+                    as0, sp_mole = PM.get_spin_mo_integrals_from_mole(mol, C)
+                    sp_cls = M.SpinMOeIntSet(e_nuc, py_set.ao_1e_int.to_mo1int(C), py_set.ao_2e_int.to_mo2int(C))
+                    d = max(set_diff(sp_py, sp_mem), set_diff(sp_mole, sp_mem), set_diff(sp_cls, sp_mem),
+                            maxdiff(sp_mem.mo_1e_int.array, slater.spin_one(h_mo)), maxdiff(sp_mem.mo_2e_int.array, slater.spin_two(g_mo)))
+                    ctx.evaluations += 1
+                    if d > TOL:
+                        ctx.witness("pyscf-vs-memory", "full-space spin MO integrals of the paths (set methods, to_mo1int/to_mo2int, "
+                                    "get_spin_mo_integrals_from_mole) differ from each other or from the spin expansion of the oracle integrals",
+                                    inp1, {"max_diff": d})
+                        continue
+                    if (as0.n_active_ele, as0.n_active_orb, as0.active_orbs_indices) != (mol.nelectron, n, None):
+                        ctx.witness("pyscf-vs-memory", "get_spin_mo_integrals_from_mole without an active space does not report the full space",
+                                    inp1, {"active_space": str(as0)})
             except Exception as e:  # noqa: BLE001
-                ctx.witness("pyscf-raises", f"active-space integrals raise {exc_name(e)}", inp, str(e)[:200])
+                ctx.witness("pyscf-raises", f"full-space integrals raise {exc_name(e)}", inp1, str(e)[:200])
                 continue
-            d = max(maxdiff(a_py.mo_1e_int.array, a_mem.mo_1e_int.array), maxdiff(a_py.mo_2e_int.array, a_mem.mo_2e_int.array),
-                    abs(a_py.const - a_mem.const), maxdiff(a_py.mo_2e_int.array, a_mole.mo_2e_int.array), abs(a_py.const - a_mole.const))
-            ctx.evaluations += 1
-            if d > TOL:
-                ctx.witness("pyscf-vs-memory",
-                            "active-space integrals of the PySCF-backed path (CASCI h1eff/h2eff) and the in-memory path differ", inp,
-                            {"max_diff": d, "const_pyscf": str(a_py.const), "const_memory": str(a_mem.const)})
-                continue
-            ctx.count("physics", "pyscf-vs-memory-ok")
-            # the reduced Hamiltonian: HF determinant energy and CASCI ground state energy
+            # HF determinant energy from the real in-memory spatial integrals (oracle Slater–Condon) = SCF energy
+            if not rotated:
+                e_hf = slater.det_energy_spatial(fs_mem.const, np.real(fs_mem.mo_1e_int.array),
+                                                 slater.chem_from_phys(np.real(fs_mem.mo_2e_int.array)), range(n_alpha), range(n_beta)).real
+                ctx.evaluations += 1
+                if abs(e_hf - mf.e_tot) > 1e-7:
+                    ctx.witness("hf-anchor", "Hartree–Fock determinant energy from the MO integrals differs from the SCF energy", inp1,
+                                {"from_integrals": e_hf, "scf": float(mf.e_tot)})
+                else:
+                    ctx.count("physics", "hf-anchor-ok")
+            todo = list(spaces)
+            if rotated and ctx.quick() and n > 3:
+                todo = rng.sample(todo, 3)
+            if rotated:
+                rng.shuffle(todo)
+            for ae, ao, act in todo:
+                inp = {**inp1, "cas": [ae, ao, None if act is None else list(act)], "active_list_type": type(act).__name__}
+                space = M.cas(ae, ao, act)
+                try:
+                    asmo = M.ActiveSpaceMolecularOrbitals(mo, space)
+                    # every public entry point of both paths; the same asmo object throughout
+                    res = {
+                        "PySCFAOeIntSet.to_active_space_mo_int": py_set.to_active_space_mo_int(asmo),
+                        "AOeIntArraySet.to_active_space_mo_int": mem_set.to_active_space_mo_int(asmo),
+                        "get_active_space_spin_integrals": PM.get_active_space_spin_integrals(asmo, py_set),
+                        "get_spin_mo_integrals_from_mole": PM.get_spin_mo_integrals_from_mole(mol, C, space)[1],
+                        "PySCFAOeIntSet.to_active_space_spatial_mo_int+to_spin":
+                            M.spatial_mo_eint_set_to_spin_mo_eint_set(py_set.to_active_space_spatial_mo_int(asmo)),
+                        "get_active_space_spatial_integrals+to_spin":
+                            M.spatial_mo_eint_set_to_spin_mo_eint_set(PM.get_active_space_spatial_integrals(asmo, py_set)),
+                        "AOeIntArraySet.to_active_space_spatial_mo_int+to_spin":
+                            M.spatial_mo_eint_set_to_spin_mo_eint_set(mem_set.to_active_space_spatial_mo_int(asmo)),
+                    }
+                    ret_space = PM.get_spin_mo_integrals_from_mole(mol, C, space)[0]
+                except Exception as e:  # noqa: BLE001
+                    ctx.witness("pyscf-raises", f"active-space integrals raise {exc_name(e)}", inp, str(e)[:200])
+                    continue
+                a_mem = res["AOeIntArraySet.to_active_space_mo_int"]
+                diffs = {k: set_diff(v, a_mem) for k, v in res.items()}
+                worst = max(diffs, key=lambda k: diffs[k])
+                ctx.evaluations += len(res)
+                if diffs[worst] > TOL:
+                    ctx.witness("pyscf-vs-memory",
+                                "active-space integrals of the PySCF-backed path (CASCI h1eff/h2eff) and the in-memory path differ", inp,
+                                {"entry_point": worst, "max_diff": diffs[worst], "const": str(res[worst].const), "const_memory": str(a_mem.const)})
+                    continue
+                if (ret_space.n_active_ele, ret_space.n_active_orb, ret_space.active_orbs_indices) != (ae, ao, act):
+                    ctx.witness("pyscf-vs-memory", "get_spin_mo_integrals_from_mole does not return the active space it was given", inp,
+                                str(ret_space))
+                    continue
+                ctx.count("physics", "pyscf-vs-memory-ok")
+                if first_result is None:
+                    first_result = (inp, asmo, a_mem)
+                if ao > 4:
+                    continue
+                # the reduced Hamiltonian (from the PySCF-backed path; the in-memory one equals it within TOL)
+                a_py = res["PySCFAOeIntSet.to_active_space_mo_int"]
+                try:
+                    c_r, one_r, two_r = real_fermionic_tensors(a_py, 2 * ao)
+                except ShapeError as e:
+                    ctx.witness("integral-shape", "active-space spin integrals do not have 2·n_active_orb spin orbitals", inp, str(e))
+                    continue
+                H_red = oracle_fock(c_r, one_r, two_r, 2 * ao)
+                core, active = slater.spec_core_and_active(ae, ao, mol.nelectron, None if act is None else list(act))
+                # (a) every active determinant: energy under the reduced Hamiltonian = Slater–Condon energy of the embedded determinant
+                #     under the full Hamiltonian of the oracle integrals
+                dets = list(range(1 << (2 * ao)))
+                if ao == 4:
+                    dets = rng.sample(dets, 48)
+                bad = None
+                for S in dets:
+                    occ, _ = slater.embed_det(core, active, S)
+                    al, be = slater.occ_to_alpha_beta(occ)
+                    e_full = slater.det_energy_spatial(e_nuc, h_mo, chem_mo, al, be).real
+                    ctx.evaluations += 1
+                    if abs(e_full - H_red[S, S].real) > 1e-7:
+                        bad = (S, e_full, float(H_red[S, S].real))
+                        break
+                if bad:
+                    ctx.witness("active-space-energy", "molecule: a determinant compatible with the active space has a different energy under "
+                                "the reduced Hamiltonian (effective core energy included) than under the full Hamiltonian", inp,
+                                {"specification_core": core, "active": active, "determinant_active_register_bits": bad[0],
+                                 "full": bad[1], "reduced": bad[2]})
+                    continue
+                ctx.count("physics", "molecule-determinants-ok")
+                # (b) the Hartree–Fock determinant, when it lies in the active space
+                if not rotated:
+                    hf_bits = 0
+                    for u, orb in enumerate(active):
+                        hf_bits |= (1 << (2 * u)) * (orb < n_alpha) | (1 << (2 * u + 1)) * (orb < n_beta)
+                    al, be = slater.occ_to_alpha_beta(slater.embed_det(core, active, hf_bits)[0])
+                    if sorted(al) == list(range(n_alpha)) and sorted(be) == list(range(n_beta)):
+                        ctx.evaluations += 1
+                        if abs(H_red[hf_bits, hf_bits].real - mf.e_tot) > 1e-7:
+                            ctx.witness("hf-anchor", "HF determinant energy under the reduced Hamiltonian differs from the SCF energy", inp,
+                                        {"reduced": float(H_red[hf_bits, hf_bits].real), "scf": float(mf.e_tot)})
+                            continue
+                        ctx.count("physics", "hf-anchor-reduced-ok")
+                # (c) PySCF CASCI with the same orbitals
+                na, nb = (ae + spin) // 2, (ae - spin) // 2
+                if ao >= 1:
+                    try:
+                        mc = mcscf.CASCI(mf, ao, ae)
+                        mc.verbose = 0
+                        mo_sorted = mc.sort_mo(list(act), C, base=0) if act else C
+                        e_cas = float(mc.kernel(mo_sorted)[0])
+                    except Exception as e:  # noqa: BLE001 – the anchor itself is unavailable, nothing to compare
+                        ctx.count("pyscf", f"casci-anchor-unavailable:{exc_name(e)}")
+                        e_cas = None
+                    if e_cas is not None:
+                        st = slater.sector_states_sz(2 * ao, na, nb)
+                        e_min = float(slater.sector_spectrum(H_red, st)[0])
+                        ctx.evaluations += 1
+                        if abs(e_min - e_cas) > 1e-7:
+                            ctx.witness("casci-anchor", "lowest eigenvalue of the reduced Hamiltonian in the (N_alpha, N_beta) sector differs "
+                                        "from PySCF CASCI", inp, {"reduced": e_min, "casci": e_cas})
+                            continue
+                        ctx.count("physics", "casci-anchor-ok")
+                # (d) the qubit Hamiltonian of the molecule (JW): the same matrix
+                if 1 <= ao <= 3:
+                    try:
+                        op, mapping = OM.get_qubit_mapped_hamiltonian(space, a_py)
+                        H_q = slater.pauli_matrix(mapping.n_qubits, qubit_terms(op))
+                    except Exception as e:  # noqa: BLE001
+                        ctx.witness("qubit-hamiltonian-raises", f"get_qubit_mapped_hamiltonian raises {exc_name(e)}", inp, str(e)[:200])
+                        continue
+                    if maxdiff(H_q, H_red) > TOL * max(1.0, float(np.max(np.abs(H_red)))):
+                        ctx.witness("qubit-hamiltonian", "JW qubit Hamiltonian of the molecule differs from the fermionic one", inp)
+                    else:
+                        ctx.count("physics", "molecule-qubit-ok")
+        # history: the very first active space once more, on the same integral-set objects and the same asmo object, after all other
+        # orbital sets / active spaces have been processed
+        if first_result is not None:
+            inp, asmo, a_mem = first_result
             try:
-                c_r, one_r, two_r = real_fermionic_tensors(a_mem, 2 * ao)
-            except ShapeError as e:
-                ctx.witness("integral-shape", "active-space spin integrals do not have 2·n_active_orb spin orbitals", inp, str(e))
-                continue
-            H_red = slater.fock_matrix(c_r, one_r, two_r, 2 * ao)
-            na = nb = ae // 2
-            core, active = slater.spec_core_and_active(ae, ao, mol.nelectron, act)
-            hf_bits = 0
-            for u, orb in enumerate(active):
-                if orb < nocc:
-                    hf_bits |= 0b11 << (2 * u)
-            ctx.evaluations += 2
-            if bin(hf_bits).count("1") == ae and sorted(core + [o for o in active if o < nocc]) == list(range(nocc)):
-                if abs(H_red[hf_bits, hf_bits].real - mf.e_tot) > 1e-7:
-                    ctx.witness("hf-anchor", "HF determinant energy under the reduced Hamiltonian differs from the SCF energy", inp,
-                                {"reduced": float(H_red[hf_bits, hf_bits].real), "scf": float(mf.e_tot)})
-                else:
-                    ctx.count("physics", "hf-anchor-reduced-ok")
-            mc = mcscf.CASCI(mf, ao, ae)
-            mc.verbose = 0
-            mo_sorted = mc.sort_mo(act, C, base=0) if act else C
-            e_cas = mc.kernel(mo_sorted)[0]
-            st = slater.sector_states_sz(2 * ao, na, nb)
-            e_min = float(slater.sector_spectrum(H_red, st)[0])
-            if abs(e_min - e_cas) > 1e-7:
-                ctx.witness("casci-anchor", "lowest eigenvalue of the reduced Hamiltonian in the (N_alpha, N_beta) sector differs from PySCF CASCI",
-                            inp, {"reduced": e_min, "casci": float(e_cas)})
-            else:
-                ctx.count("physics", "casci-anchor-ok")
-            # and the qubit Hamiltonian of the molecule (JW): same sector ground state
-            import quri_parts.openfermion.mol as OM
-
-            if ao <= 3:
-                op, mapping = OM.get_qubit_mapped_hamiltonian(M.cas(ae, ao, act), a_mem)
-                H_q = slater.pauli_matrix(mapping.n_qubits, qubit_terms(op))
-                if maxdiff(H_q, H_red) > TOL * max(1.0, float(np.max(np.abs(H_red)))):
-                    ctx.witness("qubit-hamiltonian", "JW qubit Hamiltonian of the molecule differs from the fermionic one", inp)
-                else:
-                    ctx.count("physics", "molecule-qubit-ok")
+                again = {"PySCFAOeIntSet.to_active_space_mo_int": py_set.to_active_space_mo_int(asmo),
+                         "AOeIntArraySet.to_active_space_mo_int": mem_set.to_active_space_mo_int(asmo)}
+                d = {k: set_diff(v, a_mem) for k, v in again.items()}
+            except Exception as e:  # noqa: BLE001
+                ctx.witness("pyscf-raises", f"active-space integrals raise {exc_name(e)} when asked again", inp, str(e)[:200])
+                d = {}
+            ctx.evaluations += len(d)
+            for k, v in d.items():
+                if v > TOL:
+                    ctx.witness("pyscf-vs-memory", "active-space integrals change when the same active space is reduced again after other "
+                                "orbital sets / active spaces were processed with the same integral-set object", inp,
+                                {"entry_point": k, "max_diff": v})
         ctx.count("pyscf", name)
 
 
